@@ -166,6 +166,11 @@ def strata(V):
          [1, ["sweep", "T1", allz, True]], [1, ["sweep", "public", allz, False]]],
         [[0, ["newtable", "T1"]], [0, ["newtable", "T2"]], [0, ["init", "T2", "mass", False]],
          [0, ["init", "T1", "mass", False]], [0, ["sweep", "T2", allz, False]], [0, ["sweep", "T1", allz, False]]],
+        # an iteration still running while an isotope is inserted / the mass loader runs
+        [[0, ["iter_interleaved", "public", 8, 2, "add_isotope", 11]], [0, ["iter", "public", 8]],
+         [0, ["newtable", "T1"]], [0, ["iter_interleaved", "T1", 1, 1, "init_mass", False]],
+         [0, ["iter_interleaved", "T1", 26, 3, "add_isotope", 44]], [0, ["iter", "T1", 26]],
+         [0, ["iter_interleaved", "public", None, 5, "add_isotope", 300]]],
         # a helper builds a table, returns atoms and drops the table object
         [[0, ["newtable", "T1"]], [0, ["init", "T1", "mass", False]],
          [0, ["drop_handle", "T1", [[26, 56, 2], [1, 2, 0], [8, 0, 0]]]],
@@ -256,6 +261,23 @@ def gen(seed, V, tier, index, bias=None):
             refs = [pick_atom(n, t) for _ in range(rng.choice([2, 3, 5]))]
             refs += [refs[0]]
             evs.append([n, ["container", t, refs, rng.choice(["deepcopy", "pickle:2", "pickle:4", "pickle:5"])]])
+        elif fam["iter"] and r < 0.75 and rng.random() < 0.35:
+            # an iteration still being consumed while an isotope is added / a loader runs
+            Z = rng.choice([z for z in V.Z if V.els[z]["isotopes"]])
+            As = V.els[Z]["isotopes"]
+            what = rng.choice(["add_isotope", "add_isotope", "init_mass", "lookup"])
+            if what == "add_isotope":
+                arg = rng.choice([As[0] - 1, As[-1] + 1, As[len(As) // 2], 400])
+                if arg <= 0:
+                    arg = 400
+                added.setdefault((n, t, Z), set()).add(arg)
+            elif what == "init_mass":
+                arg = rng.random() < 0.5
+                if t != "public":
+                    have[n][t] = True
+            else:
+                arg = V.els[Z]["symbol"]
+            evs.append([n, ["iter_interleaved", t, Z if rng.random() < 0.85 else None, rng.choice([0, 1, 2, 5]), what, arg]])
         elif fam["iter"] and r < 0.75:
             Z = None if rng.random() < 0.3 else rng.choice(V.Z)
             evs.append([n, ["iter", t, Z]])
